@@ -96,6 +96,10 @@ pub struct Plan {
     /// with the other members of its group done by then, the whole run is quiet in between
     #[serde(default)]
     pub quiet_ms: u64,
+    /// (layer, command): the command file of the first target of that layer lacks the x bit -
+    /// nothing of its group is started, everything later is skipped, with or without a listener
+    #[serde(default)]
+    pub not_exec: Option<(u16, u16)>,
 }
 
 #[derive(Debug, Clone, Serialize, Deserialize)]
@@ -135,6 +139,7 @@ pub fn plan(max_layer: usize, chatty: bool) -> impl Strategy<Value = Plan> {
             long_lines,
             late_bursts,
             quiet_ms: 0,
+            not_exec: None,
         })
 }
 
@@ -202,6 +207,10 @@ pub fn strategy_c15() -> impl Strategy<Value = Case> {
             // two executions of the same plan differ by themselves: keep failing tasks alone
             if plan.fail.is_some() {
                 plan.layers = plan.layers.iter().map(|_| 1).collect();
+            } else if plan.picks[0] % 4 == 0 {
+                // a command file without the x bit: found before anything of its group is started,
+                // so the outcome is the same in every execution - whatever a listener filters on
+                plan.not_exec = Some((plan.picks[1], plan.picks[2]));
             }
             let fault = match (&listener, fault) {
                 (Listener::Absent, _) => Fault::None,
@@ -268,11 +277,18 @@ pub fn install(env: &Env, plan: &Plan, tag_lines: bool) -> Setup {
                         let tail = ["", " ", "\t", "\u{a0}", "  \u{3000}", " x", "", ""][(j + task_no) % 8];
                         if (j + 3 * task_no) % 11 == 10 {
                             format!("{}¦{}¦{}¦   {}", t.path, c, stream, nl)
+                        } else if (j + 5 * task_no) % 7 == 6 {
+                            // coloured output: ANSI escape sequences are text like any other
+                            format!("{}¦{}¦{}¦\x1b[1;32m{} ok\x1b[0m{}", t.path, c, stream, j, nl)
                         } else {
                             format!("{}¦{}¦{}¦{}{}{}", t.path, c, stream, j, tail, nl)
                         }
                     } else {
-                        format!("{} {} {} line {}{}", t.path, c, stream, j, nl)
+                        if (j + 5 * task_no) % 7 == 6 {
+                            format!("{} {} {} \x1b[31mline\x1b[0m {}{}", t.path, c, stream, j, nl)
+                        } else {
+                            format!("{} {} {} line {}{}", t.path, c, stream, j, nl)
+                        }
                     };
                     let bytes = line.into_bytes();
                     if split && j == 0 && bytes.len() > 4 {
@@ -321,6 +337,12 @@ pub fn install(env: &Env, plan: &Plan, tag_lines: bool) -> Setup {
         }
     }
     bb::install_simple(env, &cfg, &beh);
+    if let Some((l, c)) = plan.not_exec {
+        use std::os::unix::fs::PermissionsExt;
+        let layer = pick(l, plan.layers.len());
+        let f = bb::simple_cmd_file(&cfg, &format!("l{}t0", layer), &commands[pick(c, plan.ncmd)]);
+        let _ = std::fs::set_permissions(env.path(&f), std::fs::Permissions::from_mode(0o644));
+    }
     Setup { cfg, commands, expected }
 }
 
@@ -562,6 +584,7 @@ pub fn check_c15(case: &Case, w: usize) -> CheckResult {
         })
         .class_if(mid_run && connected, "died-mid-run-while-connected")
         .class_if(case.plan.fail.is_some(), "plan-with-failing-task")
+        .class_if(case.plan.not_exec.is_some(), "plan-with-a-command-file-lacking-the-x-bit")
         .class_if(case.plan.unterminated != 0, "unterminated-output")
         .class_if(case.plan.split_lines != 0, "split-lines")
         .class_if(case.plan.late_bursts != 0, "late-bursts>64KiB")
@@ -710,6 +733,7 @@ pub fn strategy_c20(max_layer: usize) -> impl Strategy<Value = TailCase> {
         // task cut off like that neither "newline-terminated" nor "its stored log" is well defined
         // (on the unchanged tree the listener may have more or less than what was stored)
         plan.fail = None;
+        plan.not_exec = None;
         plan.unterminated = 0;
         // bursts around the flush tick: a few tasks pause close to 500 ms
         for (i, t) in plan.tasks.iter_mut().enumerate() {
@@ -744,6 +768,7 @@ pub fn quiet_cases(thorough: bool) -> Vec<TailCase> {
                 long_lines: 0,
                 late_bursts: 0,
                 quiet_ms: g,
+                not_exec: None,
             },
             filters: Filters { stdout: true, stderr: true, targets: vec![], commands: vec![] },
             tokio_workers: 2,
